@@ -250,9 +250,27 @@ def clIdle (cfg : Cfg) (v1 : View) (o : Obs) : Verdict :=
     .fail "idle-retains" [V.ofNat (aliveIds v1).length, V.ofNat cfg.min]
   else .ok
 
+def isRaised : Ev → Bool
+  | .raised _ => true
+  | _ => false
+
+def isOpenPool : Op → Bool
+  | .openPool _ => true
+  | _ => false
+
+/-- no exception escapes from the pool, except that `Open()` of a pool that is Closed (it was
+    already, or it shut itself down on a connection that failed to open) fails with
+    ServiceClosedError -/
+def clRaise (op : Op) (o : Obs) : Verdict :=
+  match o.evs.filter isRaised with
+  | [] => .ok
+  | l =>
+    if isOpenPool op && o.pstate == 4 && l == [.raised "ServiceClosedError"] then .ok
+    else .fail "raised" (l.map (fun e => match e with | .raised w => V.a w | _ => V.a "?"))
+
 def postCheck (cfg : Cfg) (m : Mon) (v0 v1 : View) (op : Op) (o : Obs) : Verdict :=
   Verdict.all [clSurplus cfg m op o, clQueueBound cfg v1, clHandoff m v0 op o, clClose m v0 op o,
-    clSize v1 o, clWork v1 o, clIdle cfg v1 o]
+    clSize v1 o, clWork v1 o, clIdle cfg v1 o, clRaise op o]
 
 def Mon.check (cfg : Cfg) (m : Mon) (op : Op) (o : Obs) : Verdict :=
   let v0 := preOp m.view op
@@ -271,11 +289,9 @@ def specGo (cfg : Cfg) : Mon → List (Op × Obs) → Verdict
 
 def spec (cfg : Cfg) (h : List (Op × Obs)) : Verdict := specGo cfg {} h
 
-/-- hypotheses of the theorems: `Open()` of the pool is only exercised with a connection
-    that opens (the failing first open is C09's subject, finding F5) -/
-def opOk : Op → Bool
-  | .openPool ok => ok
-  | _ => true
+/-- hypotheses of the theorems: none is left (a failing first `Open()` of the pool is handled by
+    the code since the repair of F5: the pool stays Closed and the open fails) -/
+def opOk : Op → Bool := fun _ => true
 
 def wf (_cfg : Cfg) (ops : List Op) : Bool := ops.all opOk
 
